@@ -448,7 +448,50 @@ func (s *Sim) settleStep() {
 		f()
 	}
 	s.afterSettle = s.afterSettle[:0]
+	s.assignCIDs()
 	s.stepInvariants()
+}
+
+// assignCIDs: a connection whose conn.<cid> subscription shows up only some
+// steps after the dial (its handler was not scheduled at once) is matched with
+// its id here. Only one connection is ever being set up at a time when
+// scheduling is that fine (see genClientOp), so the match is unambiguous.
+func (s *Sim) assignCIDs() {
+	if !s.Cfg.P.Faults["lockyield"] {
+		return
+	}
+	s.mu.Lock()
+	defer s.mu.Unlock()
+	used := map[int]bool{}
+	for _, c := range s.Clients {
+		if c.CIdx >= 0 {
+			used[c.CIdx] = true
+		}
+	}
+	for _, h := range s.HTTP {
+		if h.CIdx >= 0 {
+			used[h.CIdx] = true
+		}
+	}
+	var free []int
+	for i := range s.cidList {
+		if !used[i] {
+			free = append(free, i)
+		}
+	}
+	var waiting []*Client
+	for _, c := range s.Clients {
+		c.mu.Lock()
+		st := c.State
+		c.mu.Unlock()
+		if c.CIdx < 0 && (st == "connecting" || st == "open") {
+			waiting = append(waiting, c)
+		}
+	}
+	if len(free) == 1 && len(waiting) == 1 {
+		waiting[0].CIdx = free[0]
+		waiting[0].CID = s.cidList[free[0]]
+	}
 }
 
 func (s *Sim) drainParked() {
